@@ -19,7 +19,7 @@ PHASES = ("execute", "transfer", "schedule")
 
 # ---- shapes -----------------------------------------------------------------------------------
 
-def gen_shape(t, kinds=("pipe", "sg", "sg2", "diamond")):
+def gen_shape(t, kinds=("pipe", "sg", "sg2", "diamond", "fan")):
     kind = kinds[t.draw(len(kinds), "shape")]
     if kind == "pipe":
         return {"kind": "pipe", "k": 1 + t.draw(5, "pipe.len")}
@@ -27,6 +27,8 @@ def gen_shape(t, kinds=("pipe", "sg", "sg2", "diamond")):
         return {"kind": "sg", "n": (1, 2, 3, 4, 11, 12)[t.draw(6, "sg.n")], "m": 1 + t.draw(2, "sg.m")}
     if kind == "sg2":
         return {"kind": "sg2", "n": (1, 2, 3, 4, 11)[t.draw(5, "sg.n")], "m": 1 + t.draw(2, "sg.m")}
+    if kind == "fan":
+        return {"kind": "fan"}
     return {"kind": "diamond"}
 
 
@@ -47,6 +49,11 @@ def jobs_of(shape):
             for s in range(m):
                 g[f"/B{s}/0.{i}"] = [f"/B{s - 1}/0.{i}"] if s else list(first)
         g["/C/0"] = [f"/B{m - 1}/0.{i}" for i in range(n)]
+    elif k == "fan":
+        g["/A/0"] = []
+        for n in ("B", "C", "E"):
+            g[f"/{n}/0"] = ["/A/0"]
+        g["/D/0"] = ["/B/0", "/C/0", "/E/0"]
     else:
         g["/A/0"] = []
         g["/B/0"] = ["/A/0"]
@@ -89,6 +96,10 @@ def build(shape, b: R.Builder):
         gathered = b.gather("/B0", cur, size)
         out = b.exec_step("/C", {"x": gathered})
         return p_in, nin, out
+    if k == "fan":
+        a = b.exec_step("/A", {"x": p_in})
+        outs = {key: b.exec_step(f"/{n}", {"x": a}) for key, n in (("x", "B"), ("y", "C"), ("z", "E"))}
+        return p_in, None, b.exec_step("/D", outs)
     a = b.exec_step("/A", {"x": p_in})
     bb = b.exec_step("/B", {"x": a})
     cc = b.exec_step("/C", {"x": a})
@@ -118,6 +129,9 @@ def reference(shape):
                 v = c(f"/B{s}", f"0.{i}", {"x": v})
             outs.append(v)
         return [("0", c("/C", "0", {"x": outs}))]
+    if k == "fan":
+        a = c("/A", "0", {"x": "input0"})
+        return [("0", c("/D", "0", {"x": c("/B", "0", {"x": a}), "y": c("/C", "0", {"x": a}), "z": c("/E", "0", {"x": a})}))]
     a = c("/A", "0", {"x": "input0"})
     bb = c("/B", "0", {"x": a})
     cc = c("/C", "0", {"x": a})
